@@ -4,6 +4,7 @@ package harness
 // findings registry, and case files (replays).
 
 import (
+	"strings"
 	"crypto/sha256"
 	"encoding/hex"
 	"encoding/json"
@@ -138,6 +139,17 @@ func (s *Stats) Flush() {
 		return
 	}
 	s.mu.Lock()
+	for _, v := range carriedViolations {
+		dup := false
+		for _, w := range s.Violations {
+			if w.Replay == v.Replay {
+				dup = true
+			}
+		}
+		if !dup {
+			s.Violations = append(s.Violations, v)
+		}
+	}
 	b, _ := json.Marshal(s)
 	s.mu.Unlock()
 	tmp := out + ".tmp"
@@ -170,6 +182,10 @@ func SaveCase(prop string, v interface{}) string {
 	ioutil.WriteFile(p, b, 0644)
 	return p
 }
+
+// carriedViolations: recorded outside the test's own Stats (replay of a schedule case); every
+// Flush of the process includes them.
+var carriedViolations []Violation
 
 var lastCase = map[string]string{}
 var lastCaseMu sync.Mutex
@@ -254,7 +270,39 @@ func RegisterProbe(key string, p Probe) { probes[key] = p }
 // RunProbes executes the probes of a property's registry entries and applies
 // the reporting policy: known+reproduced -> KNOWN-FINDING; fixed+reproduced ->
 // violation (regression); anything not reproduced -> note.
+// propSchedule: the defaults of the rule schedule each property's statement depends on.
+var propSchedule = map[string][]string{
+	"C05": {"Fat2RCDEActivation"},
+	"C07": {"PIP10AverageActivation", "AveragePeriod", "AverageRequired", "TransactionConversionActivation"},
+	"C09": {"PIP10AverageActivation", "AveragePeriod", "AverageRequired"},
+	"C11": {"PegnetActivation", "GradingV2Activation", "V4OPRUpdate", "V20HeightActivation", "SprSignatureActivation"},
+	"C12": {"PEGPricingActivation", "PEGFreeFloatingPriceActivation", "V20HeightActivation", "V20DevRewardsHeightActivation", "V202EnhanceActivation"},
+	"C13": {"TransactionConversionActivation", "OneWaypFCTConversions", "V20HeightActivation", "OneWaySmallAssetsConversions", "PIP10AverageActivation"},
+	"C14": {"V20HeightActivation", "V202EnhanceActivation", "SnapshotRate"},
+	"C15": {"V20DevRewardsHeightActivation", "V202EnhanceActivation", "V204EnhanceActivation", "V204BurnMintedTokenActivation", "SnapshotRate"},
+	"C16": {"PegnetConversionLimitActivation", "V4OPRUpdate", "V20HeightActivation"},
+	"C19": {"Hardforks", "PegnetdSyncVersion"},
+}
+
+// scheduleCase is the replay payload of a schedule violation.
+type scheduleCase struct {
+	ScheduleCheck string           `json:"schedule_check"`
+	Found         map[string]int64 `json:"defaults_found"`
+}
+
+// CheckPropSchedule reports a changed default of the rule schedule as a violation of prop.
+func CheckPropSchedule(s *Stats, prop string) {
+	if msg := CheckSchedule(propSchedule[prop]...); msg != "" && len(propSchedule[prop]) > 0 {
+		KeepCase(prop)
+		s.Regress("schedule", msg, scheduleCase{ScheduleCheck: prop, Found: startupDefaults})
+		KeepCase(prop)
+	} else if len(propSchedule[prop]) > 0 {
+		s.Note("rule schedule defaults checked against the pinned values: %s", strings.Join(propSchedule[prop], ", "))
+	}
+}
+
 func RunProbes(s *Stats, prop string) {
+	CheckPropSchedule(s, prop)
 	for _, f := range FindingsFor(prop) {
 		p := probes[f.Key]
 		if p == nil {
